@@ -64,7 +64,7 @@ impl Prop for TextForms {
         })
     }
     fn check(c: &Case, cx: &mut Cx) -> Verdict {
-        if !c.v.valid() || c.off.abs() > 86_399 || (c.kind == Kind::Date && c.off != 0) {
+        if !c.v.valid() || c.off.unsigned_abs() > 86_399 || (c.kind == Kind::Date && c.off != 0) {
             return Verdict::Skip("malformed case");
         }
         if c.kind == Kind::DateTime && (c.v.day < cal::MIN_DAY + 1 || c.v.day > cal::MAX_DAY - 1) {
@@ -528,10 +528,17 @@ pub fn run(env: &mut Env) {
             h ^= h >> 29;
             let ns = (h % 86_400) as i64 * 1_000_000_000 + [0i64, 1, 500_000_000, 999_999_999][(h >> 20) as usize % 4];
             let off = [0i32, 3_600, -18_000, 19_800, 86_340, -86_340][(h >> 28) as usize % 6];
-            [Case { kind: Kind::Date, v: Inst { day, ns: 0 }, off: 0, local_now: 0 }, Case { kind: Kind::DateTime, v: Inst { day, ns }, off, local_now: 0 }]
+            // ... and one whose local date is the neighbouring day (alternately the previous and the
+            // next one), so that every day is also met as the *local* date of another UTC day
+            let (ns2, off2) = if day % 2 == 0 { (1_800_000_000_000i64 + (h >> 40) as i64 % 1_000_000_000, -3_600 - ((h >> 33) % 4) as i32 * 900) } else { (84_600_000_000_000i64 + (h >> 40) as i64 % 1_000_000_000, 3_600 + ((h >> 33) % 4) as i32 * 900) };
+            [
+                Case { kind: Kind::Date, v: Inst { day, ns: 0 }, off: 0, local_now: 0 },
+                Case { kind: Kind::DateTime, v: Inst { day, ns }, off, local_now: 0 },
+                Case { kind: Kind::DateTime, v: Inst { day, ns: ns2 }, off: off2, local_now: 0 },
+            ]
         })
     });
-    env.exhaustive_parts.push("C20: the Date and one DateTime of every day of the years 0001..=9999 through Display, FromStr and serde".into());
+    env.exhaustive_parts.push("C20: the Date and two DateTimes (one of them with its local date on the neighbouring day) of every day of the years 0001..=9999 through Display, FromStr and serde".into());
     env.run_random::<TextForms>(if t { 10_000_000 } else { 1_500_000 });
     env.run_random::<Malformed>(if t { 5_000_000 } else { 1_000_000 });
 }
